@@ -1483,7 +1483,7 @@ Proof.
     right. rewrite B1, B2, L1, L2. cbn. auto.
 Qed.
 
-(* MAIN 4c: [hup] on a non-leader whose scan of its window (C09 hup_scan: from the pending
+(* MAIN 4c: [hup] on a promotable (fix 8deb47c) non-leader whose scan of its window (C09 hup_scan: from the pending
    snapshot, or max (applied + 1) first_index, to committed) finds no unapplied membership
    change always campaigns:
    the node ends as PreCandidate (pre_vote, same term), as Candidate of term + 1 having
@@ -1491,14 +1491,15 @@ Qed.
    (Blocked case: C09 hup_blocked.) *)
 Theorem hup_campaigns r r' :
   is_leader r = false ->
+  r_promotable r = true ->
   hup_scan r false ->
   hup r false = Ok r' ->
   (r_state r' = PreCandidate /\ r_pre_vote r = true /\ r_term r' = r_term r) \/
   (r_state r' = Candidate /\ r_term r' = r_term r + 1 /\ r_vote r' = r_id r) \/
   (r_state r' = Leader /\ r_term r' = r_term r + 1).
 Proof.
-  intros Hl Hc H. apply hup_spec in H.
-  destruct H as [[E _]|[(_ & E & _)|(_ & _ & H)]]; [congruence| |].
+  intros Hl Hpr Hc H. apply hup_spec in H.
+  destruct H as [[E _]|[(_ & E & _)|[(_ & _ & E & _)|(_ & _ & _ & H)]]]; [congruence|congruence| |].
   { destruct Hc as (lo1 & A1 & B1). destruct E as (lo2 & A2 & B2). congruence. }
   unfold hup_campaign in H. destruct (r_pre_vote r) eqn:Epv.
   2:{ right. apply campaign_real_role in H. exact H. }
